@@ -75,11 +75,17 @@ type entSpec struct {
 	// qual names, from the store BEFORE the call, a circumstance that makes the write itself
 	// fail (missing prerequisite); it becomes part of the violation signature.
 	qual func(st *state.Store) string
+	// createOf, when set, names (from the store BEFORE the call) the registration whose
+	// CreateIndex an applied write must inherit when it is not the one stored under the key
+	// (a node write carrying the ID of a registration stored under another name is a rename).
+	createOf func(st *state.Store) (create uint64, ok bool)
 }
 
 type entPre struct {
 	ent
-	qual string
+	qual       string
+	create     uint64
+	haveCreate bool
 }
 
 func entityCond(sp entSpec) *cond {
@@ -90,7 +96,11 @@ func entityCond(sp entSpec) *cond {
 			if sp.qual != nil {
 				q = sp.qual(st)
 			}
-			return entPre{sp.read(st), q}
+			p := entPre{ent: sp.read(st), qual: q}
+			if sp.createOf != nil {
+				p.create, p.haveCreate = sp.createOf(st)
+			}
+			return p
 		},
 		tags: func(p any) []string {
 			pre := p.(entPre).ent
@@ -151,6 +161,10 @@ func entityCond(sp entSpec) *cond {
 					run.Tag("write:noop-same-content")
 				}
 			}
+			if ep := p.(entPre); ep.haveCreate {
+				wantCreate = ep.create
+				run.Tag("write:inherits-create-index-of-renamed-registration")
+			}
 			if post.create != wantCreate || post.modify != wantModify {
 				return sp.typ + ":wrong-indexes-after-write", fmt.Sprintf("want create=%d modify=%d, post=%+v pre=%+v idx=%d", wantCreate, wantModify, post, pre, idx)
 			}
@@ -185,7 +199,7 @@ func readNode(n string) func(st *state.Store) ent {
 		if e == nil {
 			return ent{}
 		}
-		return ent{true, e.CreateIndex, e.ModifyIndex, e.Address, ""}
+		return ent{true, e.CreateIndex, e.ModifyIndex, string(e.ID) + "/" + e.Address, ""}
 	}
 }
 
